@@ -2,6 +2,7 @@
 import Props.C01
 import Props.C01_attrs
 import Props.C01_ext
+import Props.C01_history
 import Props.C01_options
 import Props.C01_spelling
 #print axioms SpyneModel.Props.C01.nil_true_is_nil
@@ -39,6 +40,9 @@ import Props.C01_spelling
 #print axioms SpyneModel.Props.C01ext.multiple_returns_in_order
 #print axioms SpyneModel.Props.C01ext.client_packs_every_keyword
 #print axioms SpyneModel.Props.C01ext.client_call_fidelity
+#print axioms SpyneModel.Props.C01history.request_decoded_with_current_members
+#print axioms SpyneModel.Props.C01history.appended_member_is_decoded
+#print axioms SpyneModel.Props.C01history.renamed_ancestor_member_is_decoded
 #print axioms SpyneModel.Props.C01options.sent_value_beats_default
 #print axioms SpyneModel.Props.C01options.absent_or_nil_takes_the_default
 #print axioms SpyneModel.Props.C01options.nil_stays_none_without_the_option
